@@ -44,9 +44,29 @@ func vParam(name string) int { return int(vModel[name]) }
 
 // ---- text vocabulary (native bodies build real strings with the requested display width)
 
+// vTextShape varies how a (width, length) pair from the solver's model is realised as a native string: the
+// abstraction fixes neither the number of runes nor their kinds, so replays try a few shapes.
+var vTextShape int
+
 func vText(name string) string {
 	w := int(vModel[name+".w"])
 	n := int(vModel[name+".n"])
+	switch vTextShape {
+	case 1: // as few runes as possible: double-width runes, no zero-width ones
+		out := ""
+		for cw := w; cw > 0; {
+			if cw >= 2 {
+				out += "\u4e16"
+				cw -= 2
+			} else {
+				out += "x"
+				cw--
+			}
+		}
+		return out
+	case 2: // single-width runes only
+		return vMakeWN(w, w)
+	}
 	return vMakeWN(w, n)
 }
 func vBytes(name string) []byte { return []byte(vText(name)) }
